@@ -487,6 +487,13 @@ def F48(fil):
     return out[0] == "exc", f"parse_radec(120000.0, -2e-05) -> {out}"
 
 
+def F49(fil):
+    ts = fil.read_chan(3)
+    name = ts.to_dat("f49")
+    back = TimeSeries.from_dat(name)
+    return abs(back.header.fch1 - ts.header.fch1) > 1e-6, f"read_chan(3).to_dat() -> from_dat(): fch1 {ts.header.fch1} became {back.header.fch1}"
+
+
 ALL = {k: v for k, v in globals().items() if k.startswith("F") and k[1:].isdigit()}
 
 
